@@ -14,7 +14,12 @@ Bs == SetToSeq(TOBehaviours(Thorough))
 StiffnessTable == [e \in 1..Len(Elasticities) |-> [h \in AllHyps |-> Stiffness(e, h)]]
 Number(S) == LET s == SetToSeq(S) IN
   [i \in 1..Len(s) |-> [id |-> i, regime |-> Regime(s[i]), kexpect |-> StiffnessTable[s[i].el][s[i].hyp], fdh |-> FDSteps] @@ s[i]]
-Cs == Number(TOAllCases(Thorough))
+\* the quadratic form of the yield function (LabPlasticityIPMFQuad): a step that ends exactly on the yield surface is taken as
+\* elastic or plastic according to the rounding of f = (seq^2 - R^2) / s0, and the operator jumps there: those cases are not
+\* judged for that variant (they are for the linear form, whose f vanishes exactly)
+Degenerate(c) == /\ Regime(c) = "onset"
+                 /\ \E b \in TOBehaviours(Thorough) : Key(b) = c.bkey /\ b.algo = "quadratic"
+Cs == Number({c \in TOAllCases(Thorough) : ~Degenerate(c)})
 Tables == [elasticities |-> Elasticities, nortons |-> Nortons, plasticities |-> Plasticities, sden |-> SDen]
 ASSUME ndJsonSerialize(IOEnv.OUTB, [i \in 1..Len(Bs) |-> BehaviourRecord(Bs[i])] \o <<Tables>>)
 ASSUME ndJsonSerialize(IOEnv.OUT, Cs)
